@@ -322,3 +322,129 @@ func absentGuarded(cd map[*ssa.BasicBlock][]ssau.CtrlDep, blk *ssa.BasicBlock, i
 	}
 	return false
 }
+
+// ---------------------------------------------------------------------------
+// posting loops: wherever the scoring code walks a []posting
+
+// postingLoop is a loop over a list of postings in the scoring code.
+type postingLoop struct {
+	fn   *ssa.Function
+	loop ssau.RangeLoop
+}
+
+// postingLoops finds, in everything reachable from calculateInitialScores,
+// the loops over a value of type []posting (range or counted form).
+func postingLoops(c *Ctx) []postingLoop {
+	cs := c.P.Func("internal/database", "Database", "calculateInitialScores")
+	if cs == nil {
+		return nil
+	}
+	var out []postingLoop
+	for _, fn := range reachClosure(c, []*ssa.Function{cs}) {
+		for _, l := range ssau.RangeLoops(fn) {
+			if l.Over == nil || l.IsMap {
+				continue
+			}
+			sl, ok := l.Over.Type().Underlying().(*types.Slice)
+			if ok && ssau.NamedOf(sl.Elem()) == dbPkg+".posting" {
+				out = append(out, postingLoop{fn, l})
+			}
+		}
+	}
+	return out
+}
+
+// current reports whether v is field `field` of the element the loop is at:
+// xs[i].f, (&xs[i]).f, a field of the loaded element or of its range copy.
+func (pl postingLoop) current(v ssa.Value, field string) bool {
+	n, base := lastSelector(v)
+	if n != field || base == nil {
+		return false
+	}
+	return loopElement(base, pl.loop, 0)
+}
+
+// loopElement: base denotes (the address of, or a copy of) the element at the
+// loop's index of the slice the loop ranges over.
+func loopElement(base ssa.Value, l ssau.RangeLoop, d int) bool {
+	if d > 4 {
+		return false
+	}
+	sameSlice := func(x ssa.Value) bool {
+		if x == l.Over {
+			return true
+		}
+		// the same cell re-read, or the same parameter
+		if p := ssau.ParamOf(x); p != nil && p == ssau.ParamOf(l.Over) {
+			return true
+		}
+		ux, ok1 := x.(*ssa.UnOp)
+		uo, ok2 := l.Over.(*ssa.UnOp)
+		return ok1 && ok2 && ux.Op == token.MUL && uo.Op == token.MUL && ux.X == uo.X
+	}
+	switch b := base.(type) {
+	case *ssa.IndexAddr:
+		return b.Index == l.Index && sameSlice(b.X)
+	case *ssa.UnOp:
+		if b.Op == token.MUL {
+			// the element loaded whole, or a pointer variable holding &xs[i]
+			if loopElement(b.X, l, d+1) {
+				return true
+			}
+		}
+	case *ssa.Alloc:
+		cnt, good := 0, false
+		for _, ref := range *b.Referrers() {
+			if st, ok := ref.(*ssa.Store); ok && st.Addr == ssa.Value(b) {
+				cnt++
+				good = loopElement(st.Val, l, d+1)
+			}
+		}
+		return cnt == 1 && good
+	}
+	return false
+}
+
+// tracesTo: v is target, or a parameter to which every resolved call site
+// passes a value that traces to target.
+func tracesTo(c *Ctx, v, target ssa.Value, d int) bool {
+	if d > 4 {
+		return false
+	}
+	if v == target {
+		return true
+	}
+	if ex, ok := v.(*ssa.Extract); ok && ex.Tuple == target && ex.Index == 0 {
+		return true
+	}
+	p := ssau.ParamOf(v)
+	if p == nil {
+		return false
+	}
+	fn := p.Parent()
+	idx := -1
+	for i, q := range fn.Params {
+		if q == p {
+			idx = i
+		}
+	}
+	node := c.P.CallGraph().Nodes[fn]
+	if node == nil || idx < 0 {
+		return false
+	}
+	n := 0
+	for _, e := range node.In {
+		if e.Site == nil || !isShipped(c, e.Caller.Func) {
+			continue
+		}
+		args := e.Site.Common().Args
+		if e.Site.Common().IsInvoke() || idx >= len(args) {
+			return false
+		}
+		n++
+		if !tracesTo(c, args[idx], target, d+1) {
+			return false
+		}
+	}
+	return n > 0
+}
